@@ -333,6 +333,53 @@ theorem C05_simplify_else_preserves_with_start (M : Machine) (hd : M.determinist
   simp only [Machine.simplifyElse_step M hd o]
   rfl
 
+/-! ### the pass inside the fix-point loop of `compile()` -/
+
+/-- the pass is idempotent on a transition … -/
+theorem Arm.simplifyElse_idem (a : Arm) : a.simplifyElse.simplifyElse = a.simplifyElse := by
+  by_cases h : (decide (a.on.length > 1) && a.isElse) = true
+  · have : a.simplifyElse = { a with on := [onElse] } := by simp [Arm.simplifyElse, h]
+    rw [this]; simp [Arm.simplifyElse]
+  · have : a.simplifyElse = a := by simp [Arm.simplifyElse, h]
+    rw [this, this]
+
+theorem St.simplifyElse_idem (s : St) : s.simplifyElse.simplifyElse = s.simplifyElse := by
+  have hf : (Arm.simplifyElse ∘ Arm.simplifyElse) = Arm.simplifyElse := funext Arm.simplifyElse_idem
+  simp only [St.simplifyElse, List.map_map, hf]
+
+/-- … and on a machine: a second invocation modifies nothing (the fix-point loop of `compile()` is not kept
+    going by this pass alone). -/
+theorem Machine.simplifyElse_idem (M : Machine) : M.simplifyElse.simplifyElse = M.simplifyElse := by
+  have hf : (St.simplifyElse ∘ St.simplifyElse) = St.simplifyElse := funext St.simplifyElse_idem
+  simp only [Machine.simplifyElse, Array.map_map, hf]
+
+theorem armsDisjoint_simplify (arms : List Arm) (h : armsDisjoint arms = true) :
+    armsDisjoint (arms.map Arm.simplifyElse) = true := by
+  induction arms with
+  | nil => rfl
+  | cons a r ih =>
+    simp only [List.map_cons, armsDisjoint, Bool.and_eq_true, List.all_eq_true] at h ⊢
+    refine ⟨?_, ih h.2⟩
+    intro b' hb' v hv
+    rcases List.mem_map.mp hb' with ⟨b, hb, rfl⟩
+    have hva : a.on.contains v = true := Arm.simplifyElse_contains a v (by simpa using hv)
+    have := h.1 b hb v (by simpa using hva)
+    by_cases hc : b.simplifyElse.on.contains v = true
+    · have := Arm.simplifyElse_contains b v hc
+      simp_all
+    · simpa using hc
+
+/-- the pass keeps a deterministic table deterministic: the preservation theorem applies again to the next
+    invocation of the fix-point loop -/
+theorem Machine.simplifyElse_deterministic (M : Machine) (h : M.deterministic = true) :
+    M.simplifyElse.deterministic = true := by
+  simp only [Machine.deterministic, Array.all_eq_true] at h ⊢
+  intro i hi
+  simp only [Machine.simplifyElse, Array.size_map] at hi
+  have := h i hi
+  simp only [Machine.simplifyElse, Array.getElem_map, St.simplifyElse]
+  exact armsDisjoint_simplify _ this
+
 /-! ### the hypothesis is needed, and it is satisfiable -/
 
 /-- two transitions of one state list `End` (not a deterministic table): before the pass `end()` takes
